@@ -203,6 +203,13 @@ class CEval:
         if short in ("CString", "PascalString"):
             return Node(short, None, ("content", "terminated by a NUL byte found in the data"), [],
                         {"encoding": consteval.evaluate(self.repo, self.mod, a[0]) if a else None}, ln)
+        if short == "NullTerminated" and len(a) == 1 and not getattr(node, "keywords", None) and isinstance(a[0], ast.Call) \
+                and isinstance(a[0].func, (ast.Name, ast.Attribute)) \
+                and (a[0].func.id if isinstance(a[0].func, ast.Name) else a[0].func.attr) == "GreedyString" and not a[0].keywords:
+            # construct defines CString(enc) as StringEncoded(NullTerminated(GreedyBytes), enc); the terminator is cut before the
+            # bytes are decoded either way, so NullTerminated(GreedyString(enc)) is the same field
+            return Node("CString", None, ("content", "terminated by a NUL byte found in the data"), [],
+                        {"encoding": consteval.evaluate(self.repo, self.mod, a[0].args[0]) if a[0].args else None}, ln)
         if short == "Prefixed":
             length = self.ev(a[0], depth + 1)
             sub = self.ev(a[1], depth + 1)
